@@ -1,1 +1,496 @@
-(** Proofs/CliProofs.v — placeholder, to be written. *)
+(** Proofs/CliProofs.v — lemmas about Model/Cli.v: the exit-code ladder, the argv shapes
+    that pypyr documents, the parse_input table and the update of the context. *)
+From Coq Require Import Lia.
+From PV Require Import Parsers Cli ParsersProofs.
+Open Scope string_scope.
+
+(** * Exit codes *)
+Lemma cli_main_inv runner cwd argv m :
+  cli_main runner cwd argv = Ok m ->
+  exists a, parse_argv argv = Ok a /\ m = main_of_end (a_log a) (runner (call_of cwd a)).
+Proof.
+  unfold cli_main. destruct (parse_argv argv) as [a| |]; simpl; intros H; try discriminate.
+  inversion H. eauto.
+Qed.
+
+Lemma exit_code_table runner cwd argv m :
+  cli_main runner cwd argv = Ok m ->
+  exists a, parse_argv argv = Ok a /\
+    match runner (call_of cwd a) with
+    | Completed | Stopped =>
+        m = Returned None "" "" false /\ process_status m = 0%Z
+    | RaisedException ty msg =>
+        m = Returned (Some 255%Z) "" (err_text ty msg) (wants_traceback (a_log a))
+        /\ process_status m = 255%Z
+    | RaisedKeyboardInterrupt =>
+        m = Returned (Some 130%Z) nl "" false /\ process_status m = 130%Z
+    | e => m = Propagated e
+    end.
+Proof.
+  intros H. apply cli_main_inv in H as (a & Ha & ->). exists a. split; [exact Ha|].
+  destruct (runner (call_of cwd a)); simpl; auto.
+Qed.
+
+Definition is_system_exit (e : run_end) : bool :=
+  match e with RaisedSystemExit _ => true | _ => false end.
+
+Lemma exit_zero_iff_partial log e :
+  is_system_exit e = false ->
+  (process_status (main_of_end log e) = 0%Z <-> e = Completed \/ e = Stopped).
+Proof.
+  intros H. destruct e; simpl in *; try discriminate; split; intros H1;
+    try (destruct H1; discriminate); try discriminate; auto.
+Qed.
+
+Lemma exit_zero_iff_refuted :
+  exists log e, process_status (main_of_end log e) = 0%Z /\ e <> Completed /\ e <> Stopped.
+Proof. exists None, (RaisedSystemExit (Some 0%Z)). repeat split; discriminate. Qed.
+
+Lemma error_never_zero log ty msg :
+  process_status (main_of_end log (RaisedException ty msg)) = 255%Z.
+Proof. reflexivity. Qed.
+
+(** * argv: the documented call shapes *)
+Inductive opt_item :=
+| IGroups (g : list string)
+| ISuccess (s : string)
+| IFailure (s : string)
+| IDir (s : string)
+| ILog (alias : bool) (digits : string)      (* --log / --loglevel *)
+| ILogPath (s : string).
+
+Definition render_item (it : opt_item) : list string :=
+  match it with
+  | IGroups g => "--groups" :: g
+  | ISuccess s => ["--success"; s]
+  | IFailure s => ["--failure"; s]
+  | IDir s => ["--dir"; s]
+  | ILog false t => ["--log"; t]
+  | ILog true t => ["--loglevel"; t]
+  | ILogPath s => ["--logpath"; s]
+  end.
+
+Definition render_items (items : list opt_item) : list string := flat_map render_item items.
+
+Definition plain (s : string) : Prop := is_flag s = false.
+
+Definition item_wf (it : opt_item) : Prop :=
+  match it with
+  | IGroups g => Forall plain g
+  | ISuccess s | IFailure s | IDir s | ILogPath s => plain s
+  | ILog _ t => isdigit t = true
+  end.
+
+Definition apply_item (a : cli_args) (it : opt_item) : cli_args :=
+  match it with
+  | IGroups g => mk_cli_args (a_name a) (a_ctx a) (Some g) (a_success a) (a_failure a) (a_dir a)
+                             (a_log a) (a_logpath a)
+  | ISuccess s => mk_cli_args (a_name a) (a_ctx a) (a_groups a) (Some s) (a_failure a) (a_dir a)
+                              (a_log a) (a_logpath a)
+  | IFailure s => mk_cli_args (a_name a) (a_ctx a) (a_groups a) (a_success a) (Some s) (a_dir a)
+                              (a_log a) (a_logpath a)
+  | IDir s => mk_cli_args (a_name a) (a_ctx a) (a_groups a) (a_success a) (a_failure a) (Some s)
+                          (a_log a) (a_logpath a)
+  | ILog _ t => mk_cli_args (a_name a) (a_ctx a) (a_groups a) (a_success a) (a_failure a)
+                            (a_dir a) (Some (digits_to_Z t 0)) (a_logpath a)
+  | ILogPath s => mk_cli_args (a_name a) (a_ctx a) (a_groups a) (a_success a) (a_failure a)
+                              (a_dir a) (a_log a) (Some s)
+  end.
+
+(** no options at all *)
+Definition bare_args (name : string) (ctx : list string) : cli_args :=
+  mk_cli_args name ctx None None None None None None.
+
+(** the last occurrence of an option wins; options that do not occur stay unset *)
+Definition apply_items (items : list opt_item) (a : cli_args) : cli_args :=
+  fold_left apply_item items a.
+
+(** ** plain tokens are never mistaken for an option *)
+Lemma is_flag_cons c r : is_flag (String c r) = Ascii.eqb c "-".
+Proof.
+  unfold is_flag.
+  change (String.prefix "-" (String c r))
+    with (if ascii_dec "-" c then String.prefix "" r else false).
+  destruct (ascii_dec "-" c) as [E|E].
+  - subst. rewrite Ascii.eqb_refl. destruct r; reflexivity.
+  - symmetry. apply Ascii.eqb_neq. congruence.
+Qed.
+
+Lemma plain_head s : plain s -> s = "" \/ exists c r, s = String c r /\ c <> "-"%char.
+Proof.
+  unfold plain. destruct s as [|c r]; [now left|]. rewrite is_flag_cons. intros H.
+  right. exists c, r. split; [reflexivity|]. now apply Ascii.eqb_neq.
+Qed.
+
+Lemma eqb_dash_false s t : plain s -> String.eqb s (String "-" t) = false.
+Proof.
+  intros H. destruct (plain_head s H) as [->|(c & r & -> & Hc)]; [reflexivity|].
+  simpl. destruct (Ascii.eqb c "-") eqn:E; [|reflexivity].
+  apply Ascii.eqb_eq in E. contradiction.
+Qed.
+
+Lemma plain_opt_of s : plain s -> opt_of s = None.
+Proof. intros H. unfold opt_of. now rewrite !(eqb_dash_false s _ H). Qed.
+
+(** ** the state after one option group *)
+Definition open_mode (m : mode) : Prop :=
+  match m with MTop | MGroups | MPos => True | _ => False end.
+
+Definition set_field (o : optname) (tok : string) (st : pstate) : pstate :=
+  match set_opt o tok st with Ok st' => st' | _ => st end.
+
+Definition after_item (st : pstate) (it : opt_item) : pstate :=
+  match it with
+  | IGroups g => with_mode MGroups (set_groups (Some g) st)
+  | ISuccess s => set_field OSuccess s st
+  | IFailure s => set_field OFailure s st
+  | IDir s => set_field ODir s st
+  | ILog _ t => set_field OLog t st
+  | ILogPath s => set_field OLogPath s st
+  end.
+
+Definition args_of (st : pstate) (name : string) (ctx : list string) : cli_args :=
+  mk_cli_args name ctx (p_groups st) (p_success st) (p_failure st) (p_dir st) (p_log st)
+              (p_logpath st).
+
+Lemma run_tokens_app st a b :
+  run_tokens st (a ++ b) = (let* st' := run_tokens st a in run_tokens st' b).
+Proof.
+  revert st; induction a as [|t r IH]; intros st; simpl; [reflexivity|].
+  destruct (step st t); simpl; auto.
+Qed.
+
+Lemma step_plain_groups st t :
+  p_mode st = MGroups -> plain t -> step st t = Ok (push_group t st).
+Proof.
+  intros M H. unfold step. rewrite M.
+  rewrite (eqb_dash_false t _ H), (eqb_dash_false t _ H), (plain_opt_of t H).
+  unfold plain in H. now rewrite H.
+Qed.
+
+Lemma run_groups_values g : forall st g0,
+  p_mode st = MGroups -> p_groups st = Some g0 -> Forall plain g ->
+  run_tokens st g = Ok (set_groups (Some (g0 ++ g)%list) st).
+Proof.
+  induction g as [|t r IH]; intros st g0 M G F; simpl.
+  - rewrite app_nil_r. destruct st; simpl in *. now subst.
+  - inversion F as [|? ? Ht Fr]; subst. rewrite (step_plain_groups st t M Ht). simpl.
+    rewrite (IH (push_group t st) (g0 ++ [t])%list); auto.
+    + unfold push_group. rewrite G. destruct st; simpl. now rewrite <- app_assoc.
+    + unfold push_group. now rewrite G.
+Qed.
+
+Lemma step_option st tok o :
+  open_mode (p_mode st) -> opt_of tok = Some o -> step st tok = Ok (with_mode (MVal o) st).
+Proof.
+  intros M H. unfold step.
+  assert (E1 : String.eqb tok "--" = false).
+  { destruct (String.eqb tok "--") eqn:E; [|reflexivity]. apply String.eqb_eq in E. now subst. }
+  assert (E2 : String.eqb tok "--groups" = false).
+  { destruct (String.eqb tok "--groups") eqn:E; [|reflexivity]. apply String.eqb_eq in E. now subst. }
+  destruct (p_mode st); try contradiction; now rewrite E1, E2, H.
+Qed.
+
+Lemma step_value st o tok :
+  p_mode st = MVal o -> plain tok -> step st tok = set_opt o tok st.
+Proof. intros M H. unfold step. rewrite M. unfold plain in H. now rewrite H. Qed.
+
+Lemma run_item st it :
+  open_mode (p_mode st) -> item_wf it ->
+  run_tokens st (render_item it) = Ok (after_item st it).
+Proof.
+  intros M W. destruct it as [g|s|s|s|al t|s]; simpl in W.
+  - (* --groups *)
+    simpl. assert (S1 : step st "--groups" = Ok (with_mode MGroups (set_groups (Some []) st))).
+    { unfold step. destruct (p_mode st); try contradiction; reflexivity. }
+    rewrite S1. simpl.
+    rewrite (run_groups_values g _ []) by auto.
+    destruct st; reflexivity.
+  - simpl. rewrite (step_option st "--success" OSuccess M eq_refl). simpl.
+    rewrite (step_value _ OSuccess) by (auto; destruct st; reflexivity). destruct st; reflexivity.
+  - simpl. rewrite (step_option st "--failure" OFailure M eq_refl). simpl.
+    rewrite (step_value _ OFailure) by (auto; destruct st; reflexivity). destruct st; reflexivity.
+  - simpl. rewrite (step_option st "--dir" ODir M eq_refl). simpl.
+    rewrite (step_value _ ODir) by (auto; destruct st; reflexivity). destruct st; reflexivity.
+  - assert (P : plain t).
+    { unfold plain. destruct t as [|c r]; [reflexivity|]. rewrite is_flag_cons.
+      destruct (Ascii.eqb c "-") eqn:E; [|reflexivity].
+      apply Ascii.eqb_eq in E. subst. discriminate W. }
+    destruct al; simpl.
+    + rewrite (step_option st "--loglevel" OLog M eq_refl). simpl.
+      rewrite (step_value _ OLog) by (auto; destruct st; reflexivity).
+      unfold set_field, set_opt, parse_int. rewrite W. destruct st; reflexivity.
+    + rewrite (step_option st "--log" OLog M eq_refl). simpl.
+      rewrite (step_value _ OLog) by (auto; destruct st; reflexivity).
+      unfold set_field, set_opt, parse_int. rewrite W. destruct st; reflexivity.
+  - simpl. rewrite (step_option st "--logpath" OLogPath M eq_refl). simpl.
+    rewrite (step_value _ OLogPath) by (auto; destruct st; reflexivity). destruct st; reflexivity.
+Qed.
+
+Lemma after_item_inv st it :
+  item_wf it ->
+  open_mode (p_mode (after_item st it)) /\ p_mode (after_item st it) <> MPos
+  /\ p_seen (after_item st it) = p_seen st /\ p_pos (after_item st it) = p_pos st
+  /\ forall n c, args_of (after_item st it) n c = apply_item (args_of st n c) it.
+Proof.
+  intros W. destruct it; simpl in *; unfold set_field, set_opt, parse_int; try rewrite W;
+    destruct st; simpl; repeat split; try discriminate.
+Qed.
+
+Lemma after_item_top st it :
+  item_wf it -> (forall g, it <> IGroups g) -> p_mode (after_item st it) = MTop.
+Proof.
+  intros W N. destruct it; simpl in *; unfold set_field, set_opt, parse_int; try rewrite W;
+    destruct st; try reflexivity. exfalso. now apply (N g).
+Qed.
+
+Lemma run_items items : forall st,
+  open_mode (p_mode st) -> Forall item_wf items ->
+  run_tokens st (render_items items) = Ok (fold_left after_item items st).
+Proof.
+  induction items as [|it r IH]; intros st M F; [reflexivity|].
+  inversion F as [|? ? W Fr]; subst. unfold render_items in *. simpl.
+  rewrite run_tokens_app, (run_item st it M W). simpl.
+  apply IH; [|exact Fr]. now destruct (after_item_inv st it W) as (H & _).
+Qed.
+
+Lemma fold_after_inv items : forall st,
+  Forall item_wf items ->
+  p_seen (fold_left after_item items st) = p_seen st
+  /\ p_pos (fold_left after_item items st) = p_pos st
+  /\ (open_mode (p_mode st) -> open_mode (p_mode (fold_left after_item items st)))
+  /\ (items <> [] -> p_mode (fold_left after_item items st) <> MPos)
+  /\ forall n c, args_of (fold_left after_item items st) n c = apply_items items (args_of st n c).
+Proof.
+  induction items as [|it r IH]; intros st F; simpl.
+  - repeat split; auto; intros H; contradiction.
+  - inversion F as [|? ? W Fr]; subst.
+    destruct (after_item_inv st it W) as (A1 & A2 & A3 & A4 & A5).
+    destruct (IH (after_item st it) Fr) as (B1 & B2 & B3 & B4 & B5).
+    repeat split.
+    + now rewrite B1.
+    + now rewrite B2.
+    + intros _. now apply B3.
+    + intros _. destruct r as [|it2 r']; [exact A2|]. apply B4. discriminate.
+    + intros n c. rewrite B5, A5. reflexivity.
+Qed.
+
+(** ** positional tokens *)
+Lemma step_plain_pos st t :
+  p_mode st = MPos -> plain t -> step st t = Ok (push_pos t st).
+Proof.
+  intros M H. unfold step. rewrite M.
+  rewrite (eqb_dash_false t _ H), (eqb_dash_false t _ H), (plain_opt_of t H).
+  unfold plain in H. now rewrite H.
+Qed.
+
+Definition add_pos (l : list string) (st : pstate) : pstate :=
+  mk_pstate (p_mode st) true (p_pos st ++ l)%list (p_groups st) (p_success st) (p_failure st)
+            (p_dir st) (p_log st) (p_logpath st).
+
+Lemma run_plain_pos l : forall st,
+  p_mode st = MPos -> p_seen st = true -> Forall plain l ->
+  run_tokens st l = Ok (add_pos l st).
+Proof.
+  induction l as [|t r IH]; intros st M S F; simpl.
+  - unfold add_pos. rewrite app_nil_r. destruct st; simpl in *. now subst.
+  - inversion F as [|? ? Ht Fr]; subst. rewrite (step_plain_pos st t M Ht). simpl.
+    rewrite IH; auto. unfold add_pos, push_pos. simpl. now rewrite <- app_assoc.
+Qed.
+
+Lemma run_rest_pos l : forall st,
+  p_mode st = MRest -> Forall (fun t => t <> "--") l ->
+  l <> [] -> run_tokens st l = Ok (add_pos l st).
+Proof.
+  induction l as [|t r IH]; intros st M F N; [contradiction|].
+  inversion F as [|? ? Ht Fr]; subst. simpl.
+  assert (S1 : step st t = Ok (push_pos t st)).
+  { unfold step. rewrite M. destruct (String.eqb t "--") eqn:E; [|reflexivity].
+    apply String.eqb_eq in E. contradiction. }
+  rewrite S1. simpl. destruct r as [|t2 r'].
+  - simpl. unfold add_pos, push_pos. reflexivity.
+  - rewrite IH; auto; [|discriminate]. unfold add_pos, push_pos. simpl. now rewrite <- app_assoc.
+Qed.
+
+Lemma step_first_pos st t :
+  p_mode st = MTop -> p_seen st = false -> plain t ->
+  step st t = Ok (push_pos t (with_mode MPos st)).
+Proof.
+  intros M S H. unfold step. rewrite M.
+  rewrite (eqb_dash_false t _ H), (eqb_dash_false t _ H), (plain_opt_of t H).
+  unfold plain in H. now rewrite H, S.
+Qed.
+
+Lemma finish_open st name ctx :
+  (forall o, p_mode st <> MVal o) -> p_pos st = name :: ctx ->
+  finish st = Ok (args_of st name ctx).
+Proof.
+  intros M P. unfold finish. rewrite P.
+  destruct (p_mode st) eqn:E; try reflexivity. exfalso. now apply (M o).
+Qed.
+
+(** ** shape A:  NAME CTX… [options…] *)
+Lemma parse_argv_positionals_first name ctx items :
+  plain name -> Forall plain ctx -> Forall item_wf items ->
+  parse_argv (name :: ctx ++ render_items items) = Ok (apply_items items (bare_args name ctx)).
+Proof.
+  intros Hn Hc Hi. unfold parse_argv. simpl run_tokens.
+  rewrite (step_first_pos pstate0 name eq_refl eq_refl Hn). cbn [bind].
+  rewrite run_tokens_app.
+  rewrite (run_plain_pos ctx) by (auto; reflexivity). cbn [bind].
+  set (st1 := add_pos ctx (push_pos name (with_mode MPos pstate0))).
+  rewrite (run_items items st1) by (auto; exact I). cbn [bind].
+  destruct (fold_after_inv items st1 Hi) as (B1 & B2 & B3 & B4 & B5).
+  rewrite (finish_open _ name ctx).
+  - rewrite B5. reflexivity.
+  - intros o E. specialize (B3 I). rewrite E in B3. exact B3.
+  - rewrite B2. reflexivity.
+Qed.
+
+(** ** shape B:  [options…] -- NAME CTX… *)
+Lemma parse_argv_options_first name ctx items :
+  name <> "--" -> Forall (fun t => t <> "--") ctx -> Forall item_wf items ->
+  parse_argv (render_items items ++ "--" :: name :: ctx)
+  = Ok (apply_items items (bare_args name ctx)).
+Proof.
+  intros Hn Hc Hi. unfold parse_argv. rewrite run_tokens_app.
+  rewrite (run_items items pstate0) by (auto; exact I). cbn [bind].
+  destruct (fold_after_inv items pstate0 Hi) as (B1 & B2 & B3 & B4 & B5).
+  set (st1 := fold_left after_item items pstate0) in *.
+  assert (S1 : step st1 "--" = Ok (with_mode MRest st1)).
+  { unfold step. specialize (B3 I). rewrite B1. simpl.
+    destruct (p_mode st1); try contradiction; reflexivity. }
+  change (run_tokens st1 ("--" :: name :: ctx))
+    with (let* st' := step st1 "--" in run_tokens st' (name :: ctx)).
+  rewrite S1. cbn [bind].
+  rewrite (run_rest_pos (name :: ctx)); [|destruct st1; reflexivity|now constructor|discriminate].
+  cbn [bind]. rewrite (finish_open _ name ctx).
+  - unfold args_of. simpl. specialize (B5 name ctx). unfold args_of in B5. simpl in B5.
+    destruct st1; simpl in *. exact (f_equal _ B5).
+  - intros o. destruct st1; discriminate.
+  - simpl. destruct st1; simpl in *. now rewrite B2.
+Qed.
+
+(** ** shape D:  options… (the last one not --groups) NAME CTX… *)
+Lemma parse_argv_options_then_positionals name ctx items it :
+  plain name -> Forall plain ctx -> Forall item_wf items -> item_wf it ->
+  (forall g, it <> IGroups g) ->
+  parse_argv (render_items (items ++ [it]) ++ name :: ctx)
+  = Ok (apply_items (items ++ [it]) (bare_args name ctx)).
+Proof.
+  intros Hn Hc Hi Wi Ng. unfold parse_argv. rewrite run_tokens_app.
+  assert (F : Forall item_wf (items ++ [it])) by (apply Forall_app; split; auto).
+  rewrite (run_items _ pstate0) by (auto; exact I). cbn [bind].
+  destruct (fold_after_inv (items ++ [it]) pstate0 F) as (B1 & B2 & B3 & B4 & B5).
+  set (st1 := fold_left after_item (items ++ [it]) pstate0) in *.
+  assert (MT : p_mode st1 = MTop).
+  { unfold st1. rewrite fold_left_app. simpl. now apply after_item_top. }
+  change (run_tokens st1 (name :: ctx))
+    with (let* st' := step st1 name in run_tokens st' ctx).
+  rewrite (step_first_pos st1 name MT B1 Hn). cbn [bind].
+  rewrite (run_plain_pos ctx) by (auto; reflexivity). cbn [bind].
+  rewrite (finish_open _ name ctx).
+  - specialize (B5 name ctx). unfold args_of in *. simpl in *. exact (f_equal _ B5).
+  - intros o. simpl. discriminate.
+  - simpl. now rewrite B2.
+Qed.
+
+(** the call into the runner for an accepted command line *)
+Lemma call_passthrough cwd a :
+  let c := call_of cwd a in
+  rc_name c = a_name a /\ rc_args_in c = Some (a_ctx a) /\ rc_groups c = a_groups a
+  /\ rc_success c = a_success a /\ rc_failure c = a_failure a
+  /\ rc_dir c = (match a_dir a with Some d => d | None => cwd end)
+  /\ rc_parse_args c = Some true /\ rc_dict_in c = None /\ rc_loader c = None.
+Proof. repeat split. Qed.
+
+Lemma apply_items_name_ctx items : forall a,
+  a_name (apply_items items a) = a_name a /\ a_ctx (apply_items items a) = a_ctx a.
+Proof.
+  induction items as [|it r IH]; intros a; [split; reflexivity|]. simpl.
+  destruct (IH (apply_item a it)) as [H1 H2]. rewrite H1, H2. destruct it; split; reflexivity.
+Qed.
+
+(** * The API table *)
+Lemma parse_input_table :
+  (forall ai di, get_parse_input (Some true) ai di = true)
+  /\ (forall ai di, get_parse_input (Some false) ai di = false)
+  /\ (forall ai di, args_falsy ai = false -> get_parse_input None ai di = true)
+  /\ (forall ai, get_parse_input None ai None = true)
+  /\ (forall ai d, args_falsy ai = true -> get_parse_input None ai (Some d) = false).
+Proof.
+  repeat split; intros; unfold get_parse_input; simpl; try rewrite H; simpl;
+    try reflexivity. now rewrite andb_false_r.
+Qed.
+
+Lemma parser_skipped_iff pa ai di :
+  get_parse_input pa ai di = false
+  <-> pa = Some false \/ (pa = None /\ args_falsy ai = true /\ di <> None).
+Proof.
+  unfold get_parse_input. destruct pa as [[|]|]; simpl.
+  - split; [discriminate|]. intros [H|(H & _)]; discriminate.
+  - split; auto.
+  - destruct (args_falsy ai), di; simpl; split; intros H; try discriminate; auto.
+    + right. repeat split. discriminate.
+    + destruct H as [H|(_ & _ & H)]; [discriminate|contradiction].
+    + destruct H as [H|(_ & H & _)]; discriminate.
+    + destruct H as [H|(_ & H & _)]; discriminate.
+Qed.
+
+(** * The parser result updates the context *)
+Lemma dict_update_nil_r (d : dict) : dict_update d [] = d.
+Proof. reflexivity. Qed.
+
+Lemma prepare_context_spec parse_input parser a ctx :
+  prepare_context parse_input parser a ctx =
+  match parse_input, parser with
+  | false, _ => Ok ctx
+  | true, None => Ok ctx
+  | true, Some p =>
+      match run_parser p a with
+      | Ok None => Ok ctx
+      | Ok (Some d) => Ok (dict_update ctx d)
+      | Err n m => Err n m
+      | Unsup => Unsup
+      end
+  end.
+Proof.
+  unfold prepare_context. destruct parse_input; [|reflexivity].
+  destruct parser as [p|]; [|reflexivity].
+  destruct (run_parser p a) as [[d|]| |]; simpl; try reflexivity.
+  destruct d; reflexivity.
+Qed.
+
+(** parsed keys override, every other key keeps the value it had *)
+Lemma prepare_context_lookup p a ctx qs k :
+  run_parser p a = Ok (Some (skv qs)) -> NoDup (map fst qs) ->
+  exists ctx', prepare_context true (Some p) a ctx = Ok ctx'
+    /\ sget k ctx' = match aget k qs with Some v => Some v | None => sget k ctx end.
+Proof.
+  intros H ND. rewrite prepare_context_spec, H. eexists; split; [reflexivity|].
+  now apply dict_update_str_lookup.
+Qed.
+
+(** the command line: an empty context updated with the parser's result, i.e. that result *)
+Lemma cli_context_is_parser_result parser argv a :
+  parse_argv argv = Ok a ->
+  cli_first_step_context parser argv = prepare_context true parser (Some (a_ctx a)) [].
+Proof. intros H. unfold cli_first_step_context, api_first_step_context. now rewrite H. Qed.
+
+Lemma cli_context_builtin p argv a d :
+  p <> PJson -> parse_argv argv = Ok a ->
+  run_parser p (Some (a_ctx a)) = Ok (Some d) ->
+  cli_first_step_context (Some p) argv = Ok d.
+Proof.
+  intros Hp Ha Hr. rewrite (cli_context_is_parser_result _ _ _ Ha), prepare_context_spec, Hr.
+  destruct (parser_result_alist p _ d Hp Hr) as (qs & -> & ND).
+  now rewrite dict_update_nil_skv.
+Qed.
+
+Lemma cli_context_kvp argv a x l :
+  parse_argv argv = Ok a -> a_ctx a = x :: l ->
+  cli_first_step_context (Some PKeyValuePairs) argv = Ok (kvp_dict (x :: l)).
+Proof.
+  intros Ha Hc. apply (cli_context_builtin PKeyValuePairs argv a); [discriminate|exact Ha|].
+  rewrite Hc. reflexivity.
+Qed.
